@@ -299,6 +299,34 @@ pub fn run(prop: PathProp, tier: Tier, seed: u64) -> i32 {
         ctx.require("deep_tree_paths");
     }
     if prop == PathProp::C01 {
+        // declared bounds so wide that the space's extent (and with it the motion-check
+        // resolution) overflows to +inf, around an ordinary world: a motion check then consists of
+        // the end-point query alone, and that query must still be made
+        let n_wide = tier.pick(240, 20_000);
+        par_shards(48.min(n_wide), crate::util::n_threads(), |sh| {
+            let mut b = Batch::default();
+            let mut i = sh;
+            while i < n_wide {
+                let mut r = Sm::derive(seed, &[prop as u64 + 370, i as u64]);
+                let mut cfg = cfg_for(&mut r, i, &[Hostility::GoalOverlap, Hostility::GoalInvalid, Hostility::Plain, Hostility::InvalidStart], 0.0, &GenOpts::default(), 300, 0.0);
+                cfg.wrap = crate::spec::Wrap::R;
+                cfg.planner = [PKind::Rrt, PKind::Star, PKind::Connect, PKind::Rrt][(i / 3) % 4];
+                let mut sc = make_scenario(&mut r, &cfg);
+                for c in sc.problem.spec.comps.iter_mut() {
+                    if let crate::spec::CK::R { n, bounds } = &mut c.kind {
+                        *bounds = Some(vec![(-1e200, 1e200); *n]);
+                    }
+                }
+                sc.params.goal_bias = *r.pick(&[0.3, 0.6, 1.0]);
+                sc.problem.goal.mode = crate::world::GoalMode::Rng;
+                sc.iters = sc.iters.min(200);
+                sc.problem.tags.push("extent-overflows".into());
+                run_case(prop, &ctx, &mut b, &sc);
+                b.count("cases_with_overflowing_extent", 1);
+                i += 48.min(n_wide);
+            }
+            ctx.merge(b);
+        });
         c01_histories(&ctx, tier, seed);
         ctx.require("history_paths_after_checker_change");
         twins(PathProp::C01, &ctx, tier, seed);
